@@ -1,0 +1,11 @@
+//go:build verif
+
+package j5schema
+
+// Contracts for contract-based verification (/verif, properties C06, C18, C15).
+
+// Mutable() is true exactly for the message-like field schemas; every implementation is checked
+// against this interface-level contract.
+//@ func (FieldSchema).Mutable
+//@   ensures result ==> typeis(recv, *ObjectField) || typeis(recv, *OneofField) || typeis(recv, *AnyField) || typeis(recv, *ArrayField) || typeis(recv, *MapField)
+//@   ensures !result ==> typeis(recv, *ScalarSchema) || typeis(recv, *EnumField)
